@@ -95,6 +95,13 @@ impl StorageImpl {
     pub(crate) fn flush(&self) -> std::io::Result<()> {
         #[cfg(walrus_verif)]
         crate::wal::verif::io_event("flush");
+        #[cfg(walrus_verif)]
+        if crate::wal::verif::fault("flush") {
+            return Err(std::io::Error::new(
+                std::io::ErrorKind::Other,
+                "injected: flush failed",
+            ));
+        }
         match self {
             StorageImpl::Mmap(mmap) => mmap.flush(),
             StorageImpl::Fd(fd) => fd.flush(),
